@@ -96,11 +96,65 @@ def run(ctx):
     r4(ctx)
     r5(ctx)
     r6(ctx, bearing)
+    ctx.rule("R9", "rewriters of a top-level rule inherit the environment the rule has just matched into (the variables check_var lets a rewriter's fix use), never the caller's pre-match environment")
+    r9(ctx)
     ctx.rule("R8", "a variable occurrence in a fix/message is replaced from the environment map of its own class: single capture, ellipsis capture, transformed value")
     r8(ctx)
     ctx.rule("R7", "the kind set the acceptance test looks at is the kind set of what will be matched (every Matcher impl: potential_kinds covers match_node_with_env; "
              "a `matches` reference resolves to the same rule in both) — obligations shared with C01 R1/R2")
     r7(ctx)
+
+
+ENV_PASS = {"clone", "to_mut", "deref", "deref_mut", "as_ref", "as_mut", "borrow", "borrow_mut", "unwrap_or", "unwrap_or_else", "unwrap", "expect", "map", "cloned", "into_owned", "to_owned"}
+
+
+def r9(ctx):
+    """register_rewriters checks a rewriter's fix against the variables of the enclosing rule (upper vars), so `fix: $OUTER.$X` is
+    accepted.  At run time the rewriter sees those variables only if RuleCore::do_match hands apply_transform_in the environment the
+    rule matched into — the scratch environment that match_node_with_env wrote — or the enclosing environment it was given itself.
+    The caller's environment as it was BEFORE the match has none of the rule's captures: every such occurrence expands to ''."""
+    prog = ctx.prog
+    dm0 = ctx.anchor("R9", r"^ast_grep_config::rule_core::RuleCore::<L>::do_match$")
+    if not dm0:
+        return
+    dm = prog.inlined(dm0)
+    calls = [c for c in dm.calls if c.name in ("apply_transform_in", "apply_transform") and c.bb in dm.live_blocks]
+    ctx.floor("R9", "transform applications in do_match", len(calls), 1)
+    enc_params = [i for i in range(1, dm.nargs + 1) if "Option<&" in dm.locals[i] and "MetaVarEnv" in dm.locals[i]]
+    for n, c in enumerate(calls):
+        if len(c.args) < 4:
+            ctx.ob("R9", "do_match/transform application#%d" % n, False, "apply_transform_in no longer takes the enclosing environment as its fourth argument: re-review", where=dm0.loc(c.line))
+            continue
+        found = set()
+        seen = set()
+        def walk(op, depth=0):
+            if op[0] == "k" or depth > 14:
+                return
+            for o in dm.trace_operand(op):
+                k = (o.kind, o.ref if isinstance(o.ref, (int, str)) else id(o.ref))
+                if k in seen:
+                    continue
+                seen.add(k)
+                if o.kind == "param":
+                    found.add("enclosing" if o.ref in enc_params else "param %s" % dm.local_name(o.ref))
+                elif o.kind == "agg" and str(o.ref[2][1].get("adt", "")).endswith("borrow::Cow"):
+                    found.add("scratch")
+                elif o.kind == "agg":
+                    for sub in o.ref[2][2]:
+                        walk(sub, depth + 1)
+                elif o.kind == "call":
+                    if o.ref.name in ENV_PASS:
+                        for a in o.ref.args:
+                            walk(a, depth + 1)
+                    else:
+                        found.add("call %s" % o.ref.name)
+        walk(c.args[3])
+        bad = sorted(found - {"enclosing", "scratch"})
+        ok = bool(found) and not bad
+        ctx.ob("R9", "do_match/transform application#%d inherits the matched environment" % n, ok,
+               "the enclosing environment handed to the transformations comes from %s" % sorted(found) if ok else
+               "the enclosing environment handed to the transformations comes from %s: for a top-level rule that is the environment BEFORE this rule matched — "
+               "a rewriter's fix that uses a variable of the enclosing rule (accepted by the variable check) expands it to the empty string" % bad, where=dm0.loc(c.line))
 
 
 GETTER_OF = {"Single": "get_match", "Multiple": "get_multiple_matches", "Transformed": "get_transformed"}
